@@ -86,6 +86,8 @@ impl<T: ChanceInfo> ChanceRecurse for RefCell<T> {
 
 impl<T: ChanceInfo> ChanceRecurse for Mutex<T> {
     fn next<'a>(&self, chance: &'a Chance) -> &'a Node {
+        #[cfg(feature = "verif")]
+        crate::verif::jitter();
         self.lock().unwrap().next(chance)
     }
 }
@@ -112,6 +114,8 @@ impl<T: ActiveInfo> ActiveRecurse for Mutex<T> {
         // this is the unique visit to this infoset this iteration, however in practice switching
         // to unsafe rust didn't actually improve performance, likely because the locking isn't a
         // huge bottleneck
+        #[cfg(feature = "verif")]
+        crate::verif::jitter();
         self.try_lock().unwrap().recurse(player, rec)
     }
 }
@@ -122,6 +126,13 @@ trait ExternalInfo {
     fn update_cum_strat(&mut self);
 
     fn next_update<'a>(&mut self, player: &'a Player) -> &'a Node {
+        #[cfg(feature = "verif")]
+        crate::verif::visit(
+            2,
+            player.num,
+            player.infoset,
+            player as *const Player as usize,
+        );
         self.update_cum_strat();
         self.next(player)
     }
@@ -139,12 +150,21 @@ impl<T: ExternalInfo> ExternalRecurse for RefCell<T> {
 
 impl<T: ExternalInfo> ExternalRecurse for Mutex<T> {
     fn next_update<'a>(&self, player: &'a Player) -> &'a Node {
+        #[cfg(feature = "verif")]
+        crate::verif::jitter();
         self.lock().unwrap().next_update(player)
     }
 }
 
 impl ActiveInfo for CachedInfoset {
     fn recurse(&mut self, player: &Player, rec: impl Fn(&Node) -> f64) -> f64 {
+        #[cfg(feature = "verif")]
+        crate::verif::visit(
+            1,
+            player.num,
+            player.infoset,
+            player as *const Player as usize,
+        );
         // recurse and get expected utility
         let mut expected = 0.0;
         for ((next, prob), cum_reg) in player
@@ -186,6 +206,31 @@ impl ExternalInfo for CachedInfoset {
         for (val, cum) in self.reg.strat.iter().zip(self.reg.cum_strat.iter_mut()) {
             *cum += val;
         }
+    }
+}
+
+#[cfg(feature = "verif")]
+impl crate::verif::Snap for CachedInfoset {
+    fn snap(&mut self) -> crate::verif::InfoState {
+        crate::verif::InfoState {
+            cum_regret: self.reg.cum_regret.to_vec(),
+            cum_strat: self.reg.cum_strat.to_vec(),
+            strat: self.reg.strat.to_vec(),
+        }
+    }
+}
+
+#[cfg(feature = "verif")]
+impl crate::verif::Snap for RefCell<CachedInfoset> {
+    fn snap(&mut self) -> crate::verif::InfoState {
+        self.get_mut().snap()
+    }
+}
+
+#[cfg(feature = "verif")]
+impl crate::verif::Snap for Mutex<CachedInfoset> {
+    fn snap(&mut self) -> crate::verif::InfoState {
+        self.get_mut().unwrap().snap()
     }
 }
 
@@ -321,6 +366,8 @@ fn single_player_iter<'a, const FIRST: bool>(
     params: &RegretParams,
 ) -> f64 {
     let [active_player_infosets, external_player_infosets] = player_infosets;
+    #[cfg(feature = "verif")]
+    crate::verif::begin_pass(it, if FIRST { 1 } else { 2 });
     // compute threashold of `target` nodes for efficient multi threading
     thread_threshold::<FIRST>(
         root,
@@ -351,6 +398,18 @@ fn single_player_iter<'a, const FIRST: bool>(
         &work.payoffs,
     );
 
+    #[cfg(feature = "verif")]
+    if FIRST {
+        crate::verif::snapshot(
+            0,
+            [&mut *active_player_infosets, &mut *external_player_infosets],
+        );
+    } else {
+        crate::verif::snapshot(
+            0,
+            [&mut *external_player_infosets, &mut *active_player_infosets],
+        );
+    }
     // update all infosets
     work.payoffs.clear();
     chance_infosets
@@ -416,6 +475,11 @@ pub(crate) fn solve_external_multi(
                 it,
                 params,
             );
+            #[cfg(feature = "verif")]
+            {
+                crate::verif::snapshot(1, [&mut *player_one, &mut *player_two]);
+                crate::verif::bounds([reg_one, reg_two]);
+            }
             reg_two = single_player_iter::<false>(
                 root,
                 &mut chance_infosets,
@@ -425,6 +489,11 @@ pub(crate) fn solve_external_multi(
                 it,
                 params,
             );
+            #[cfg(feature = "verif")]
+            {
+                crate::verif::snapshot(1, [&mut *player_one, &mut *player_two]);
+                crate::verif::bounds([reg_one, reg_two]);
+            }
             // check to terminate
             if f64::max(reg_one, reg_two) < max_reg {
                 break;
@@ -473,23 +542,41 @@ pub(crate) fn solve_external_single(
     }
     for it in 1..=max_iter {
         // player one
+        #[cfg(feature = "verif")]
+        crate::verif::begin_pass(it, 1);
         recurse_regret::<true>(start, &chance_infosets, &player_one, &player_two, &());
         chance_infosets
             .iter_mut()
             .for_each(|info| info.get_mut().advance());
+        #[cfg(feature = "verif")]
+        crate::verif::snapshot(0, [&mut *player_one, &mut *player_two]);
         reg_one = player_one
             .iter_mut()
             .map(|info| info.get_mut().advance::<true>(it, params))
             .sum();
+        #[cfg(feature = "verif")]
+        {
+            crate::verif::snapshot(1, [&mut *player_one, &mut *player_two]);
+            crate::verif::bounds([reg_one, reg_two]);
+        }
         // player two
+        #[cfg(feature = "verif")]
+        crate::verif::begin_pass(it, 2);
         recurse_regret::<false>(start, &chance_infosets, &player_two, &player_one, &());
         chance_infosets
             .iter_mut()
             .for_each(|info| info.get_mut().advance());
+        #[cfg(feature = "verif")]
+        crate::verif::snapshot(0, [&mut *player_one, &mut *player_two]);
         reg_two = player_two
             .iter_mut()
             .map(|info| info.get_mut().advance::<false>(it, params))
             .sum();
+        #[cfg(feature = "verif")]
+        {
+            crate::verif::snapshot(1, [&mut *player_one, &mut *player_two]);
+            crate::verif::bounds([reg_one, reg_two]);
+        }
         // check to terminate
         if f64::max(reg_one, reg_two) < max_reg {
             break;
